@@ -16,7 +16,9 @@ Reachability in finite directed multigraphs (shared library; core-only, drivers 
 * `dfs_fuel_sufficient` — if the successor lists are bounded by an edge list `E`
   (`(next n).length ≤ #{e ∈ E | src e = n}`), then `stack.length + E.length + 1` iterations finish.
 * Edge lists: `Edge ν ω` (`src`, `dst`, weight `w`), `succs`, `preds`, `reachable`, `coreachable`
-  with `mem_reachable_iff`, `mem_coreachable_iff`; `reach_preds_iff` relates the reversed graph.
+  with `mem_reachable_iff`, `mem_coreachable_iff`; `reach_preds_iff` relates the reversed graph;
+  explicit edge chains `Path` with `reach_iff_path` and `on_path_iff` (an edge lies on some path from
+  `a` to `b` iff `a` reaches its source and its target reaches `b`).
 -/
 namespace CweModel.Reach
 
@@ -345,6 +347,61 @@ theorem mem_coreachable_iff (g : Graph ν ω) (targets : List ν) (x : ν) :
     x ∈ coreachable g targets ↔ ∃ t ∈ targets, GReach g x t := by
   rw [coreachable, mem_dfs_iff _ _ _ (coreachable_finished g targets) x]
   simp only [reach_preds_iff]
+
+/-! ### Explicit paths -/
+
+/-- `Path g a es b`: `es` is a chain of edges of `g` leading from `a` to `b` -/
+inductive Path (g : Graph ν ω) : ν → List (Edge ν ω) → ν → Prop where
+  | nil (a : ν) : Path g a [] a
+  | cons {e : Edge ν ω} {es : List (Edge ν ω)} {b : ν} :
+      e ∈ g → Path g e.dst es b → Path g e.src (e :: es) b
+
+theorem Path.reach {g : Graph ν ω} {a b : ν} {es : List (Edge ν ω)} (h : Path g a es b) :
+    GReach g a b := by
+  induction h with
+  | nil => exact .refl _
+  | cons he _ ih => exact Reach.head (mem_succs.mpr ⟨_, he, rfl, rfl⟩) ih
+
+omit [DecidableEq ν] in
+theorem Path.append {g : Graph ν ω} {a b c : ν} {es es' : List (Edge ν ω)}
+    (h1 : Path g a es b) (h2 : Path g b es' c) : Path g a (es ++ es') c := by
+  induction h1 with
+  | nil => simpa using h2
+  | cons he _ ih => exact .cons he (ih h2)
+
+theorem GReach.exists_path {g : Graph ν ω} {a b : ν} (h : GReach g a b) : ∃ es, Path g a es b := by
+  induction h with
+  | refl => exact ⟨[], .nil _⟩
+  | tail _ hs ih =>
+    obtain ⟨es, hp⟩ := ih
+    obtain ⟨e, he, h1, h2⟩ := mem_succs.mp hs
+    subst h1; subst h2
+    exact ⟨es ++ [e], hp.append (.cons he (.nil _))⟩
+
+theorem reach_iff_path {g : Graph ν ω} {a b : ν} : GReach g a b ↔ ∃ es, Path g a es b :=
+  ⟨GReach.exists_path, fun ⟨_, h⟩ => h.reach⟩
+
+/-- an edge of a path splits it -/
+theorem Path.split {g : Graph ν ω} {a b : ν} {es : List (Edge ν ω)} (h : Path g a es b)
+    {e : Edge ν ω} (he : e ∈ es) : e ∈ g ∧ GReach g a e.src ∧ GReach g e.dst b := by
+  induction h with
+  | nil => simp at he
+  | @cons e' es' b' he' hp ih =>
+    rcases List.mem_cons.mp he with rfl | h
+    · exact ⟨he', .refl _, hp.reach⟩
+    · have ⟨h1, h2, h3⟩ := ih h
+      exact ⟨h1, Reach.head (mem_succs.mpr ⟨_, he', rfl, rfl⟩) h2, h3⟩
+
+/-- **An edge lies on some path from `a` to `b`** iff its source is reachable from `a` and `b` is
+reachable from its target. -/
+theorem on_path_iff {g : Graph ν ω} {a b : ν} {e : Edge ν ω} :
+    (∃ es, Path g a es b ∧ e ∈ es) ↔ e ∈ g ∧ GReach g a e.src ∧ GReach g e.dst b := by
+  constructor
+  · rintro ⟨es, hp, he⟩; exact hp.split he
+  · rintro ⟨he, h1, h2⟩
+    obtain ⟨es1, p1⟩ := h1.exists_path
+    obtain ⟨es2, p2⟩ := h2.exists_path
+    exact ⟨es1 ++ e :: es2, p1.append (.cons he p2), by simp⟩
 
 end EdgeList
 
